@@ -493,10 +493,10 @@ def sysv(prog, rep):
     # 0 is a valid set id (the first set created in an IPC namespace gets it): the handle is invalid only when it is -1
     from plint.wiring import id_validity_tests
     nid, badid = id_validity_tests(u, "sem_hdl")
-    rep.ob("C06.5", badid[0][0] if badid else u.fn("pp_semaphore_clean_handle", raw=True), "id:validity", nid >= 2 and not badid,
-           "%d tests of sem_hdl separate exactly the failure value -1 from the valid ids" % nid if (nid >= 2 and not badid) else
+    rep.ob("C06.5", badid[0][0] if badid else u.fn("pp_semaphore_clean_handle", raw=True), "id:validity", nid >= 1 and not badid,
+           "%d tests of sem_hdl separate exactly the failure value -1 from the valid ids" % nid if (nid >= 1 and not badid) else
            ("line %d: %s treats a valid set id as no handle (`%s`): for the set with that id the owner's free skips IPC_RMID, or the create path misjudges its result, and the "
-            "next opener attaches to the stale counter" % (line(badid[0][1]), badid[0][0].name, badid[0][2]) if badid else "fewer than two validity tests of sem_hdl found"),
+            "next opener attaches to the stale counter" % (line(badid[0][1]), badid[0][0].name, badid[0][2]) if badid else "no validity test of sem_hdl found"),
            badid[0][1] if badid else u.fn("pp_semaphore_clean_handle", raw=True).loc[0])
     rep.floor("C06.5", 5 + 1)
 
@@ -511,8 +511,10 @@ def run(prog, rep):
     from plint.wiring import result_tests
     _ru = prog.unit("psemaphore-posix.c")
     _nrt, _brt = result_tests(_ru)
-    rep.ob("C06.3", _brt[0][0] if _brt else sorted(_ru.functions.values(), key=lambda f_: f_.loc[0])[0], "result-tests", _nrt >= 3 and not _brt,
-           "%d tests of system call results put 0 (or a valid descriptor) on the success side" % _nrt if (_nrt >= 3 and not _brt) else
+    if _nrt < 1:
+        raise AnalysisBroken("result tests: only %d comparisons of system call results found in %s" % (_nrt, _ru.name))
+    rep.ob("C06.3", _brt[0][0] if _brt else sorted(_ru.functions.values(), key=lambda f_: f_.loc[0])[0], "result-tests", not _brt,
+           "%d tests of system call results put 0 (or a valid descriptor) on the success side" % _nrt if not _brt else
            ("line %d: `%s` in %s counts a successful call as failed (or descriptor 0 as no descriptor): what the call did in the kernel is not recorded in the object, or a valid "
             "descriptor is dropped" % (line(_brt[0][1]), _brt[0][2], _brt[0][0].name) if _brt else "fewer result tests than expected (%d)" % _nrt), _brt[0][1] if _brt else _ru.functions[sorted(_ru.functions)[0]].loc[0])
     check_error_contract(rep, "C06.2", prog, ['psemaphore-posix.c', 'psemaphore-sysv.c'], 10)
